@@ -536,6 +536,11 @@ func c13(w *core.World, rep *core.Report) {
 	defer func() { w.Cx.Loops = base }()
 	maxTai, maxRej, maxNssai, maxLadn := 16, 8, 8, 4
 	QuickTimeout = 40 * time.Second // few, large obligations (lists of up to 16 fully symbolic entries)
+	// the list functions take a handful of paths per list length on the current tree; a tree on which they take
+	// hundreds is not explored further (the job is reported as undecided)
+	savedPaths := w.Cx.MaxPaths
+	w.Cx.MaxPaths = 300
+	defer func() { w.Cx.MaxPaths = savedPaths }()
 	w.Cx.MaxVisits = 40
 	jobs = nil
 	for k := 1; k <= maxTai; k++ {
